@@ -1,0 +1,18 @@
+//go:build verif
+
+package skiplist
+
+import (
+	"math/rand"
+
+	"github.com/fogfish/golem/maplike"
+	"github.com/fogfish/golem/pure/ord"
+)
+
+// NewWithSource is New with an injectable source of node heights.
+// Verification hook: compiled only with the build tag `verif`.
+func NewWithSource[K, V any](compare ord.Ord[K], random rand.Source) maplike.MapLike[K, V] {
+	list := New[K, V](compare).(*tSkipList[K, V])
+	list.random = random
+	return list
+}
